@@ -907,11 +907,71 @@ Definition cfg16 : hcfg := mkHC true 16.
 Definition two_waiting : hstate := submit_all cfg16 h_init 2 1.       (* tags 1, 2 on channels 1, 2 *)
 Definition bytes_of (l : list nat) : bytes := map N.of_nat l.
 
-(* "4294967298 X\n" : applied to the request on channel 2 *)
-Lemma channel_number_wraps :
-  snd (hreads cfg16 two_waiting [bytes_of [52;50;57;52;57;54;55;50;57;56;32;88;10]%nat]) = [(2, Some [88])] /\
-  line_number (bytes_of [52;50;57;52;57;54;55;50;57;56;32;88]%nat) = 2%Z.
-Proof. vm_compute. split; reflexivity. Qed.
+(* "4294967298 X\n" (2^32 + 2) and "18446744073709551618 X\n" (2^64 + 2): not channel 2's reply, nobody is called *)
+Lemma out_of_range_channel_number_dropped :
+  snd (hreads cfg16 two_waiting [bytes_of [52;50;57;52;57;54;55;50;57;56;32;88;10]%nat]) = [] /\
+  snd (hreads cfg16 two_waiting [bytes_of [49;56;52;52;54;55;52;52;48;55;51;55;48;57;53;53;49;54;49;56;32;88;10]%nat]) = [] /\
+  line_number (bytes_of [52;50;57;52;57;54;55;50;57;56;32;88]%nat) = (-1)%Z.
+Proof. vm_compute. repeat split; reflexivity. Qed.
+
+(* the exact (unbounded) value of a digit string *)
+Fixpoint dec_exact (acc : Z) (ds : bytes) : Z :=
+  match ds with
+  | [] => acc
+  | d :: r => dec_exact (acc * 10 + (Z.of_N d - 48)) r
+  end.
+
+Lemma dec_exact_ge a ds : forallb isdigit ds = true -> (0 <= a)%Z -> (a <= dec_exact a ds)%Z.
+Proof.
+  revert a. induction ds as [|d r IH]; intros a Hd Ha; cbn [dec_exact]; [lia|].
+  cbn [forallb] in Hd. apply andb_prop in Hd as [H1 H2]. unfold isdigit in H1.
+  specialize (IH (a * 10 + (Z.of_N d - 48))%Z H2). lia.
+Qed.
+
+Lemma dec_acc_exact a ds : forallb isdigit ds = true -> (0 <= a <= 9223372036854775808)%Z ->
+  dec_acc a ds = Z.min (dec_exact a ds) 9223372036854775808%Z.
+Proof.
+  revert a. induction ds as [|d r IH]; intros a Hd Ha; cbn [dec_acc dec_exact]; [lia|].
+  cbn [forallb] in Hd. apply andb_prop in Hd as [H1 H2]. unfold isdigit in H1.
+  rewrite IH by (try exact H2; lia).
+  destruct (Z_le_gt_dec (a * 10 + (Z.of_N d - 48)) 9223372036854775808) as [Hle|Hgt].
+  - rewrite (Z.min_l (a * 10 + (Z.of_N d - 48)) 9223372036854775808) by exact Hle. reflexivity.
+  - rewrite (Z.min_r (a * 10 + (Z.of_N d - 48)) 9223372036854775808) by lia.
+    pose proof (dec_exact_ge 9223372036854775808 r H2 ltac:(lia)).
+    pose proof (dec_exact_ge (a * 10 + (Z.of_N d - 48)) r H2 ltac:(lia)). lia.
+Qed.
+
+(* the channel a reply line names is EXACTLY the decimal number it starts with, or no channel at all (-1) when
+   that number does not fit an int: no wrap-around, whatever the number of digits *)
+Lemma channel_number_exact ds rest :
+  ds <> [] -> forallb isdigit ds = true -> match rest with [] => True | c :: _ => isdigit c = false end ->
+  fst (strtol (ds ++ rest)) = dec_exact 0 ds \/
+  (fst (strtol (ds ++ rest)) = (-1)%Z /\ (INT_MAX < dec_exact 0 ds)%Z).
+Proof.
+  intros Hne Hd Hr. destruct ds as [|d ds']; [congruence|]. set (ds := d :: ds') in *.
+  assert (Hd0 : isdigit d = true) by (cbn [forallb] in Hd; now apply andb_prop in Hd as [H _]).
+  assert (Hsp : isspace d = false) by (unfold isdigit, isspace in *; lia).
+  assert (Hsg : (d =? 45) || (d =? 43) = false) by (unfold isdigit in Hd0; lia).
+  assert (Hng : (d =? 45) = false) by (unfold isdigit in Hd0; lia).
+  unfold strtol. change (ds ++ rest) with (d :: (ds' ++ rest)). cbn [skip_ws]. rewrite Hsp.
+  cbn [sign_rest is_neg]. rewrite Hsg, Hng.
+  change (d :: ds' ++ rest) with (ds ++ rest).
+  assert (Hs : span isdigit (ds ++ rest) = (ds, rest)).
+  { clear -Hd Hr. induction ds as [|x r IH]; cbn [app span].
+    - destruct rest as [|c rest]; [reflexivity|]. cbn [span]. now rewrite Hr.
+    - cbn [forallb] in Hd. apply andb_prop in Hd as [H1 H2]. rewrite H1, (IH H2). reflexivity. }
+  rewrite Hs. unfold ds at 1. cbn [fst]. fold ds.
+  rewrite (dec_acc_exact 0 ds Hd ltac:(lia)).
+  pose proof (dec_exact_ge 0 ds Hd ltac:(lia)) as Hge.
+  unfold chan_of, LONG_MAX, INT_MAX.
+  destruct (Z_le_gt_dec (dec_exact 0 ds) 2147483647) as [Hle|Hgt].
+  - left. rewrite !Z.min_l by lia.
+    replace ((dec_exact 0 ds <? 0)%Z) with false by lia.
+    replace ((2147483647 <? dec_exact 0 ds)%Z) with false by lia. reflexivity.
+  - right. split; [|unfold INT_MAX; lia].
+    replace ((2147483647 <? Z.min (Z.min (dec_exact 0 ds) 9223372036854775808) 9223372036854775807)%Z) with true by lia.
+    now rewrite orb_true_r.
+Qed.
 
 (* "1 OK\r\n" in one read, and cut between CR and LF: different text, different result code *)
 Lemma crlf_cut_changes_text :
